@@ -454,6 +454,36 @@ pub fn unmanaged_scenarios(tier: Tier, with_close: bool) -> Vec<Scenario> {
     v
 }
 
+// ---------------------------------------------------------------- C10
+
+pub fn c10_scenarios(tier: Tier) -> Vec<Scenario> {
+    use crate::tworld::{run_time, run_utime, PState, TimeScenario, UTimeScenario};
+    let b = bounds(tier);
+    let ev = if b.thorough { 8 } else { 6 };
+    let mut v = Vec::new();
+    for with_runtime in [true, false] {
+        for state in [PState::Empty, PState::Idle, PState::Exhausted, PState::Closed] {
+            let sc = TimeScenario { with_runtime, state, max_events: if with_runtime { ev } else { 2 } };
+            v.push(Scenario::new(
+                &format!("managed/{}/{:?}", if with_runtime { "tokio" } else { "no-runtime" }, state),
+                "pool-level and per-call wait/create/recycle timeouts in {none, zero, 10ms} x every create/recycle answer x every ordering of clock advances (4ms / 12ms), slot release and gate completion before each poll, on a paused tokio clock",
+                0,
+                3,
+                move || run_time(&sc),
+            ));
+        }
+        let sc = UTimeScenario { with_runtime, max_events: ev };
+        v.push(Scenario::new(
+            &format!("unmanaged/{}", if with_runtime { "tokio" } else { "no-runtime" }),
+            "unmanaged pool: configured and per-call timeout in {none, zero, 10ms} x {object available, empty, closed} x every ordering of clock advances and an object being added",
+            0,
+            0,
+            move || run_utime(&sc),
+        ));
+    }
+    v
+}
+
 pub fn spec_for(prop: &str, tier: Tier) -> Option<CheckSpec> {
     let assumptions = vec![
         "sequentially consistent interleavings only (Relaxed atomics are explored as SC)".to_string(),
@@ -476,6 +506,7 @@ pub fn spec_for(prop: &str, tier: Tier) -> Option<CheckSpec> {
         "C08" => c08_scenarios(tier),
         "C09" => c09_scenarios(tier),
         "C11" => c11_scenarios(tier),
+        "C10" => c10_scenarios(tier),
         "C05" => unmanaged_scenarios(tier, false),
         "C12" => unmanaged_scenarios(tier, true),
         _ => return None,
